@@ -81,8 +81,8 @@ CHECKS = {
         design="DESIGN.md §4 C08",
     ),
     "C14": dict(
-        rules="R14.1-R14.13",
-        what="both front ends can construct the same set of AST node classes; per node class the semantic attributes set at construction agree (branch-sensitive tracking); Errors.report clamps end positions before building ErrorInfo; every statement list that becomes a block went through overload merging in both front ends and the native shortcut rests on a monotone function counter; parse-time message_registry diagnostics of the default parser are reported by the native parser too; the two parsers of Arg(...) constructors report each diagnostic under the same tests; folded f-string text lands in a kept node; a diagnostic both front ends report under a count test is reported for the same counts; the shared parameter-list helpers (sharedparse.*, nodes.check_param_names) are applied by both front ends; the conditional-overload helpers of both front ends thread the overload name through their recursion; nativeparse uses a node's position only after read_loc() has read it (CFG, R14.13)",
+        rules="R14.1-R14.14",
+        what="both front ends can construct the same set of AST node classes; per node class the semantic attributes set at construction agree (branch-sensitive tracking); Errors.report clamps end positions before building ErrorInfo; every statement list that becomes a block went through overload merging in both front ends and the native shortcut rests on a monotone function counter; parse-time message_registry diagnostics of the default parser are reported by the native parser too; the two parsers of Arg(...) constructors report each diagnostic under the same tests; folded f-string text lands in a kept node; a diagnostic both front ends report under a count test is reported for the same counts; the shared parameter-list helpers (sharedparse.*, nodes.check_param_names) are applied by both front ends; the conditional-overload helpers of both front ends thread the overload name through their recursion; nativeparse uses a node's position only after read_loc() has read it (CFG, R14.13); registrations in Errors.ignored_files are re-evaluated after the inline configuration (R14.14)",
         quant="source files without type comments and their corruptions",
         technique="sibling cross-check of the two parser front ends over the resolved constructors; CFG must-pass for the position clamps",
         note="Equality of diagnostics between the parsers and columns lying inside the line are value-level and not decided.",
